@@ -93,6 +93,13 @@ def jhash(obj, n=12):
     return hashlib.sha1(s.encode()).hexdigest()[:n]
 
 
+def pick(parts, k):
+    """deterministic pseudo-random choice in range(k) from a hash of
+    ``parts``: used to thin / rotate case dimensions without putting them in
+    lock-step with each other"""
+    return int(jhash(parts), 16) % k
+
+
 def chunked(it, n):
     it = iter(it)
     while True:
